@@ -5,7 +5,8 @@ From Helm Require Import Common.Assoc Engine.Types Engine.Eff Engine.Ops Engine.
                          Engine.DryRun Engine.Ownership Engine.OwnershipProofs Engine.OwnershipCalls
                          Engine.OwnershipConfine Engine.OwnershipStamped Engine.OwnershipLookup
                          Engine.MatchDefs Engine.Stamp Engine.StampProofs Engine.StampWorld
-                         Engine.OwnershipFrame Engine.OwnershipOnlyIf Engine.OwnershipNs Engine.OwnershipReq.
+                         Engine.OwnershipFrame Engine.OwnershipOnlyIf Engine.OwnershipNs Engine.OwnershipReq
+                         Engine.StampTableSem Gen.StampTable.
 Import ListNotations.
 Local Open Scope string_scope.
 
@@ -212,6 +213,40 @@ Theorem C07_stamp_fields_spec :
     (forall rn' ns', owned_by rn' ns' (stamp_fields rn ns f) = true <-> rn' = rn /\ ns' = ns).
 Proof. exact stamp_fields_spec. Qed.
 Print Assumptions C07_stamp_fields_spec.
+
+(* ---- translator table Gen/StampTable.v: the shape of the stamping code, read out of
+        pkg/action/validate.go (and the call sites in pkg/action) by go/ast on every run ---- *)
+
+(* the constants, the parameter names of mergeStrStrMaps and the maps it copies (in order), the
+   argument roles at its two callers, the literal maps of setMetadataVisitor, the force argument
+   at every call site: exactly what the model was transcribed from *)
+Theorem C07_stamp_table_expected :
+  stamp_consts = [("appManagedByLabel", app_managed_by_label); ("appManagedByHelm", app_managed_by_helm);
+                  ("helmReleaseNameAnnotation", helm_release_name_annotation);
+                  ("helmReleaseNamespaceAnnotation", helm_release_namespace_annotation)] /\
+  merge_params = ["current"; "desired"] /\ merge_loops = ["current"; "desired"] /\
+  merge_calls = [("mergeLabels", ["object:Labels"; "param"]); ("mergeAnnotations", ["object:Annotations"; "param"])] /\
+  visitor_maps = [("mergeLabels", [("appManagedByLabel", "appManagedByHelm")]);
+                  ("mergeAnnotations", [("helmReleaseNameAnnotation", "releaseName");
+                                        ("helmReleaseNamespaceAnnotation", "releaseNamespace")])] /\
+  map fst visitor_force_sites = ["install.go"; "rollback.go"; "upgrade.go"] /\
+  all_forced visitor_force_sites = true.
+Proof. repeat split; reflexivity. Qed.
+Print Assumptions C07_stamp_table_expected.
+
+(* semantic obligations: the merge and the stamping the generated table describes, interpreted by
+   Engine/StampTableSem.v, ARE the model's functions — for all maps, all objects, all releases *)
+Theorem C07_stamp_table_merge :
+  forall (current desired : strmap),
+    merge_by_table merge_params merge_loops current desired [] = Some (merge_str_str_maps current desired).
+Proof. intros current desired. reflexivity. Qed.
+Print Assumptions C07_stamp_table_merge.
+
+Theorem C07_stamp_table_stamp :
+  forall (rn ns : string) (o : meta),
+    stamp_by_table stamp_consts merge_params merge_loops merge_calls visitor_maps rn ns o = Some (stamp_meta rn ns o).
+Proof. intros rn ns o. reflexivity. Qed.
+Print Assumptions C07_stamp_table_stamp.
 
 (* what the main create / update of an operation leave in the store: every object Client.Create
    creates from a stamped manifest, and every object Client.Update creates or patches towards a
